@@ -266,6 +266,12 @@ func (m *matcher) match(p, n ast.Node) bool {
 	case *ast.ArrayType:
 		y := n.(*ast.ArrayType)
 		return m.matchOpt(x.Len, y.Len) && m.match(x.Elt, y.Elt)
+	case *ast.InterfaceType:
+		y := n.(*ast.InterfaceType)
+		return (x.Methods == nil || len(x.Methods.List) == 0) == (y.Methods == nil || len(y.Methods.List) == 0)
+	case *ast.MapType:
+		y := n.(*ast.MapType)
+		return m.match(x.Key, y.Key) && m.match(x.Value, y.Value)
 	case *ast.ExprStmt:
 		return m.match(x.X, n.(*ast.ExprStmt).X)
 	case *ast.IncDecStmt:
